@@ -197,7 +197,8 @@ def build_goto(job, root, wdir, extra_defs=()):
                 raise Undecided("remove-function-body %s failed:\n%s" % (fn, txt2[-1000:]))
             cur = nxt
         a = os.path.join(wdir, "a_linked.gb")
-        rc, txt2, _ = run(["goto-cc"] + inc + defs + ["--function", entry, cur]
+        tdefs = ["-DTRAMP_" + fn for fn in job["remove_bodies"]]
+        rc, txt2, _ = run(["goto-cc"] + inc + defs + tdefs + ["--function", entry, cur]
                           + [vpath(s) for s in job.get("late_stubs", [])] + ["-o", a], wdir, 300)
         if rc:
             raise Undecided("linking contract stubs failed:\n" + txt2[-3000:])
@@ -293,7 +294,7 @@ def unwindset_for(job, gb, wdir):
 
 
 def cbmc_cmd(job, gb, extra=()):
-    cmd = ["cbmc", gb, "--no-standard-checks"]
+    cmd = ["cbmc", gb, "--no-standard-checks", "--drop-unused-functions"]
     for c in job.get("checks", ["ptr"]):
         cmd += CHECKS[c]
     cmd += job.get("cbmc", []) + job.get("_unwindset", [])
@@ -344,6 +345,7 @@ def run_job(job, root, tmp):
     try:
         gb, icmd = build_goto(job, root, wdir)
         res["instrument_cmd"] = icmd
+        res["gb"] = gb
         job["_unwindset"] = unwindset_for(job, gb, wdir)
         cmd = cbmc_cmd(job, gb, ["--json-ui"])
         res["cbmc_cmd"] = " ".join(["cbmc", "<gb>"] + cmd[2:])
@@ -460,6 +462,10 @@ def extract_inputs(trace):
                 acc = []
                 _flatten(s["value"], lhs, acc)
                 for lv, v in acc:
+                    # union irc_inaddr: the trace lists every alternative view; only the
+                    # primary member (in6) is the value that was assigned
+                    if re.search(r"\.in6_(8|16|32)\[", lv):
+                        continue
                     leaves[lv] = v
     flat = {}
     for lv, v in leaves.items():
@@ -506,7 +512,7 @@ def native_replay(job, root, wdir, inputs):
         s2 = vpath(s) if s.startswith(("units/", "stubs/", "harness/")) else os.path.join(root, s)
         if s2 not in srcs:
             srcs.append(s2)
-    cmd = ["gcc", "-g", "-O0", "-w", "-fsanitize=address,undefined", "-fno-sanitize-recover=undefined",
+    cmd = ["gcc", "-g", "-O0", "-w", "-fsanitize=address,undefined", "-fno-sanitize=shift-base", "-fno-sanitize-recover=undefined",
            "-DVERIF_NATIVE", "-DVERIF_ENTRY=" + job["entry"], "-include", hdr,
            "-I", root, "-I", os.path.join(VERIF, "include"), "-I", VERIF] \
         + [d for d in BASE_DEFS if d not in ("-D__NO_CTYPE", "-DVERIF_CBMC")] + ["-D" + d for d in job.get("defines", [])] \
